@@ -290,7 +290,7 @@ struct Engine : public vf::Engine {
         int residueMode = -1;
         if (acc || mis) { unsigned x = (unsigned)w.below(10); if (x < 3) residueMode = (int)w.below(73); else if (x < 5) residueMode = 100 + (int)w.range(2, 4); }
         d.p["residue"] = residueMode; d.p["dirty"] = w.chance(3, 4);
-        d.p["threadsafe"] = (mis || acc) && w.chance(1, 4);       // the thread-safe wrappers on one thread: same behaviour, other code path
+        d.p["threadsafe"] = (mis || acc || snd) && w.chance(1, 4);       // the thread-safe wrappers on one thread: same behaviour, other code path
         d.p["realloc0_frees"] = f.chance(1, 2);        // what the platform does with realloc(p, 0): glibc releases p and answers NULL
         d.p["fault_free"] = f.chance(1, 3);             // fault-free and fault-injecting configurations are separate sub-populations
         bool faultFree = d.pi("fault_free") != 0;
